@@ -13,6 +13,7 @@
 -/
 import Gojq.Proofs.HeapChain
 import Gojq.Proofs.HeapAlgebra
+import Gojq.Proofs.HeapDel
 namespace Gojq.C02Heap
 open Gojq Gojq.Heap
 
@@ -152,19 +153,30 @@ theorem kvFind_is_lookup (k : Bytes) (kvs : List (Bytes × JV)) (h : kvSorted kv
 theorem delpaths_order_irrelevant (v : JV) (ps ps' : List Path) (h : ps.Perm ps') :
     delpaths ps v = delpaths ps' v := delpaths_perm v ps ps' h
 
-/-- The full statement of C02 item 3 for the allocator level: func.go's `delpaths` (mark with
-    `struct{}{}` through `update`, then `deleteEmpty` over owned containers) denotes the value-level
-    `delpaths` whenever it succeeds.  Proved only in the two parts below (order-independence of the
-    specification; confinement and ownership of the writes): the refinement itself needs the `upd`
-    development to be redone for `mark`, whose payload is the subtree it replaces. Covered by the
-    `heap` correspondence stream and by harness/c02oracle. -/
-def delpaths_original_indices_statement : Prop :=
-  ∀ (ps : List Path) (v : T) (f : Nat) r, (∀ j ∈ v.ids, j < f) → JV.wf (abs v) = true →
-    delpathsT [] f ps v = some r → abs r.1 = delpaths ps (abs v)
+/-- **Mark-then-sweep deletes the positions that the paths denote in the ORIGINAL value** (C02 item 3,
+    `delpaths_original_indices`): func.go's `delpaths` — mark every path with `struct{}{}` through `update`,
+    copying or writing in place as the allocator allows, then `deleteEmpty` over the owned containers —
+    returns, whenever it succeeds, exactly the value-level `delpaths ps (abs v)`, for every list of
+    key/index paths (ancestors, descendants, duplicates, missing keys, out-of-range and negative
+    indices, in any order), every allocator and every value without placeholders whose objects have
+    strictly increasing keys.  Together with `delpaths_order_irrelevant`: independent of the order of `ps`. -/
+theorem delpaths_original_indices (A : List Nat) (f : Nat) (ps : List Path) (v : T) r
+    (hfree : holeFree v) (hwf : JV.wf (abs v) = true) (h : delpathsT A f ps v = some r) :
+    abs r.1 = delpaths ps (abs v) :=
+  delpathsT_abs A f ps v r hfree hwf h
 
-/-- `delpaths_original_indices_partial`: the marking pass writes only cells registered in the allocator
-    it is given or allocated by itself, and the sweep stores only into registered cells. -/
-theorem delpaths_original_indices_partial (A : List Nat) (f : Nat) (ps : List Path) (v : T)
+/-- whenever two orders of the same paths both succeed, func.go's `delpaths` returns the same value
+    (success itself can depend on the order when a path runs through a scalar that an earlier path
+    deleted: `{"a":1} | delpaths([["a"],["a","b"]])` is `{}`, the other order is an error — such lists
+    never come from `path(…)`) -/
+theorem delpaths_code_order_irrelevant (A A' : List Nat) (f f' : Nat) (ps ps' : List Path) (v : T) r r'
+    (hfree : holeFree v) (hwf : JV.wf (abs v) = true) (hp : ps.Perm ps')
+    (h : delpathsT A f ps v = some r) (h' : delpathsT A' f' ps' v = some r') : abs r.1 = abs r'.1 := by
+  rw [delpathsT_abs A f ps v r hfree hwf h, delpathsT_abs A' f' ps' v r' hfree hwf h', delpaths_perm _ _ _ hp]
+
+/-- the marking pass writes only cells registered in the allocator it is given or allocated by itself,
+    and the sweep stores only into registered cells -/
+theorem delpaths_writes_confined (A : List Nat) (f : Nat) (ps : List Path) (v : T)
     (v' : T) (A' : List Nat) (f' : Nat) (log : Log) (sw : List Nat)
     (h : delpathsT A f ps v = some (v', A', f', log, sw)) :
     (∀ e ∈ log, e.1 ∈ A') ∧ (∀ a ∈ sw, a ∈ A') ∧ (∀ a ∈ A', a ∈ A ∨ (f ≤ a ∧ a < f')) := by
@@ -208,6 +220,8 @@ example : setpath [.idx 1, .key [97]] (.arr [.null]) (.bool true) = some (.arr [
 example : validPath [.idx (-1)] (.arr [.null, .bool true]) := ⟨1, by decide, trivial⟩
 example : Indep [.key [97], .idx 0] [.key [97], .idx 2] := Or.inr ⟨rfl, Or.inl ⟨by decide, by decide, by decide⟩⟩
 example : delpaths [[.idx 1], [.idx 2]] (.arr [.bool false, .null, .null, .bool true]) = .arr [.bool false, .bool true] := by rfl
+example : holeFree (.node 0 false 1 [([], .node 1 true 0 [([97], T.null), ([98], T.null)])]) := by
+  simp [holeFree, holeFreeK, T.null]
 example : (delpathsT [] 10 [[.idx 0, .key [97]]] (.node 0 false 1 [([], .node 1 true 0 [([97], T.null), ([98], T.null)])])).map
     (fun r => (abs r.1, r.2.2.2.2)) = some (.arr [.obj [([98], .null)]], [11, 10]) := by rfl
 
